@@ -257,6 +257,8 @@ def monitor(start, ops, trace, envelopes):
     for k, (op, (post, outs)) in enumerate(zip(ops, trace)):
         kind = op[0]
         where = {'step': k, 'operation': [x if not isinstance(x, (bytes, bytearray)) else list(x) for x in op]}
+        if kind == 'finish' and 'SRaise' in outs:
+            return dict(where, broken='an exception escaped from finish() (drain of a dead listener): it would end the main loop')
         if kind != 'dispatch':
             i = op[1]
             for j in range(n):
